@@ -174,6 +174,33 @@ func runCrashCase(c crCase, bin, tmp string) map[string]interface{} {
 		case "idle":
 			timed("ping", func() error { return cp.Ping() })
 			crashNow()
+		case "in_accept":
+			// the host is waiting in the broker's Accept for an id nobody has dialled yet when the plugin dies
+			go func() {
+				time.Sleep(time.Duration(100+c.Jit) * time.Millisecond)
+				if pr, err := os.FindProcess(p.Pid()); err == nil {
+					pr.Kill()
+				}
+			}()
+			crashed = true
+			tCrash = time.Now().Add(time.Duration(100+c.Jit) * time.Millisecond)
+			timed("broker_accept", func() error {
+				switch b := stub.Broker.(type) {
+				case vp.MuxAPI:
+					conn, e := b.B.Accept(77900 + uint32(c.Jit))
+					if e == nil {
+						conn.Close()
+					}
+					return e
+				case vp.GRPCAPI:
+					ln, e := b.B.Accept(77900 + uint32(c.Jit))
+					if e == nil {
+						ln.Close()
+					}
+					return e
+				}
+				return nil
+			})
 		case "in_unary":
 			go func() {
 				time.Sleep(time.Duration(200+c.Jit) * time.Millisecond)
